@@ -609,6 +609,8 @@ func TestC11(t *testing.T) { Run(t, propC11()) }
 
 func FuzzGenC11(f *testing.F) { RunFuzz(f, propC11()) }
 
+func TestRaceC11(t *testing.T) { RunConcurrent(t, propC11(), 4) }
+
 // ---- native fuzz targets (thorough tier) ------------------------------------------------
 
 func fuzzTotal(f *testing.F, format string) {
